@@ -75,6 +75,8 @@ class Gen:
     if flagged and k == 9:
       return ['o', r.below(2), [flags[0] and self.static, True, flags[2]],
               [[r.below(3), self.value(depth - 1, refs, flagged)] for _ in range(min(n, 3))]]
+    if flagged and k == 8 and r.chance(0.5):
+      return ['tl', [['o', 0, list(F), [[r.below(2), self.value(depth - 1, 0.0)]]] for _ in range(r.randint(0, 3))]]
     if k % 2 == 0:
       keys = []
       items = []
@@ -147,6 +149,7 @@ class Gen:
         (8, 'lset'), (4, 'ldel'), (6, 'lappend'), (7, 'linsert'), (4, 'lextend'), (2, 'liadd'),
         (4, 'lpop'), (2, 'lremove'), (2, 'lclear'), (4, 'lsort'), (4, 'lreverse'), (2, 'limul'),
         (6, 'lslice'), (5, 'ldelslice'), (2, 'seal'),
+        (3, 'tlset'), (2, 'tlappend'), (2, 'tlins'), (1, 'tldel'), (1, 'tlpop'),
         (4, 'oset'), (9, 'rebind'), (4, 'clone'), (3, 'new'), (3, 'newjson')])
     j = {'op': name, 't': r.below(64), 'n': not r.chance(notify_off)}
     if name == 'new':
@@ -165,6 +168,14 @@ class Gen:
     elif name == 'lset':
       j['key'] = self.idx()
       j['v'] = self.top_value()
+    elif name in ('tlset', 'tlins', 'tlappend'):
+      # typed list: an instance of C0 (new or existing) is accepted, anything else is rejected
+      j['key'] = self.idx()
+      k = r.below(10)
+      j['v'] = (['o', 0, list(F), [[r.below(2), self.value(1, 0.0)]]] if k < 4 else self.ref() if k < 7
+                else r.below(4))
+    elif name in ('tldel', 'tlpop'):
+      j['key'] = self.idx()
     elif name in ('ldel', 'lpop'):
       j['key'] = self.idx()
     elif name == 'lappend':
